@@ -490,6 +490,9 @@ def pick_entities(R, ents, limit):
                                                    or any(o.site in ("use_item", "attr_spec_alias") for o in x.occs))]
     R.shuffle(focus)
     must += focus[:3]
+    ovl = [x for x in cand if x not in must and getattr(x, "ovl", False)]
+    R.shuffle(ovl)
+    must += ovl[:2]
     cross = [x for x in cand if getattr(x, "cross", False) and x not in must and len(set(o.file for o in x.occs)) > 1]
     R.shuffle(cross)
     must += cross[:2]
